@@ -88,6 +88,9 @@ func (t StopActivityTransition) do(env *Environment) (err error) {
 	if tasksStateErrors := incomingEv.GetTasksStateChangedError(); tasksStateErrors != nil {
 		return tasksStateErrors
 	}
+	if err = criticalTasksInError(env, "STOP_ACTIVITY"); err != nil {
+		return err
+	}
 	env.sendEnvironmentEvent(&event.EnvironmentEvent{EnvironmentID: env.Id().String(), State: "CONFIGURED"})
 
 	log.WithField(infologger.Run, env.currentRunNumber).
